@@ -19,6 +19,7 @@ def corr(name, rules, generate=None, ctype="event_count"):
 
 
 ID_B = "11111111-2222-4333-8444-555555555555"
+ID_C, ID_C3, ID_B2 = "22222222-2222-4333-8444-555555555555", "33333333-2222-4333-8444-555555555555", "44444444-2222-4333-8444-555555555555"
 SETS = {
     "chain3": [plain("a"), plain("b", ID_B), corr("c1", ["a", ID_B]), corr("c2", ["c1"]), plain("u")],
     "two_generate": [plain("a"), corr("g_true", ["a"], True), corr("g_false", ["a"], False), plain("u")],
@@ -26,6 +27,11 @@ SETS = {
     "anonymous": [plain("r"), plain("r2"), {**corr("a", ["r"]), "name": "a"}, {k: v for k, v in corr("X", ["r2"]).items() if k != "name"}, {k: v for k, v in corr("B", ["a"]).items() if k != "name"}],
     "missing": [plain("a"), corr("c1", ["nope"])],
     "depth3": [plain("a"), corr("c1", ["a"]), corr("c2", ["c1"]), corr("c3", ["c2", "a"])],
+    # generation flags along a chain: the outer correlation does not ask for generation, the inner ones do
+    "mixed_generate_chain": [plain("a"), corr("c1", ["a"], True), corr("c2", ["c1"], True), corr("c3", ["c2"], False), plain("u")],
+    "inner_generates_not": [plain("a"), corr("c1", ["a"], False), corr("c2", ["c1"], True)],
+    # a correlation rule that has a name AND an id, referred to by its id
+    "corr_by_id": [plain("a"), {**corr("c1", ["a"]), "id": ID_C}, corr("c2", [ID_C]), {**corr("c3", ["c1", ID_B2]), "id": ID_C3}, plain("b2", ID_B2)],
 }
 
 
@@ -107,6 +113,18 @@ class C09Bounded(Bounded):
                         fails.append({"text": f"rule referenced by a correlation rule without generation still emits its own query: {d['a']}", "input": [sname]})
                 if sname == "generate_only" and o[0] == "ok" and dict(o[1])["a"][0] is not True:
                     fails.append({"text": "rule referenced only with generation enabled emits no query", "input": [sname]})
+                if sname == "mixed_generate_chain" and o[0] == "ok":
+                    d = dict(o[1])
+                    want = {"a": True, "c1": True, "c2": False, "c3": True, "u": True}       # emitted: unreferenced, or referenced only with generation enabled
+                    got = {k: v[0] for k, v in d.items()}
+                    if got != want:
+                        fails.append({"text": f"generation along a chain: rules emitting their own query {got}, expected {want} (a is referenced by c1 with generate, c1 by c2 with generate, c2 by c3 without)", "input": [sname]})
+                if sname == "inner_generates_not" and o[0] == "ok":
+                    got = {k: v[0] for k, v in dict(o[1]).items()}
+                    if got != {"a": False, "c1": True, "c2": True}:
+                        fails.append({"text": f"generation: rules emitting their own query {got}, expected a: False (referenced without generate), c1: True (referenced with generate), c2: True", "input": [sname]})
+                if sname == "corr_by_id" and o[0] != "ok":
+                    fails.append({"text": f"correlation rules referred to by their id (they also have a name): {o}", "input": [sname]})
                 if sname == "missing" and o != ("error", "SigmaRuleNotFoundError"):
                     fails.append({"text": f"reference to a missing rule: {o} instead of SigmaRuleNotFoundError at load time", "input": [sname]})
         finally:
